@@ -90,26 +90,38 @@ def run(ctx):
         q_li = pick(tb0.quant, fld(last_inc, "index"), "")
         q_ci = pick(tb0.quant, lambda e: e[0] == "call" and e[1].endswith("commit_index"), "")
         b_mono = pick(tb0.bools, lambda e: e[0] == "unwrap_or" and e[2] == ("const", "true") and e[1][0] == "call" and e[1][1].endswith("Option::map") and last_purge(e[1][2][0]), "")
-        if None in (q_li, q_ci, b_mono) or len(tb0.quant) != 2 or len(tb0.bools) != 1:
-            ctx.bad("C05-d", "%s#table" % fkey(f), "UNRECOGNISED-FORM: can_purge_logs inputs %s %s" % ([sym_show(q) for q in tb0.quant], [sym_show(b) for b in tb0.bools]), "%s:%s" % (f.file, f.line))
+        # form 2: the monotonic check written inline (match / if let on the previous purge id)
+        v_lp = pick(list(tb0.vars), last_purge, "")
+        q_lp = pick(tb0.quant, fld(last_purge, "0", "index"), "")
+        form = "closure" if b_mono is not None else ("inline" if (v_lp is not None and q_lp is not None) else None)
+        expected_q = {q_li, q_ci} | ({q_lp} if form == "inline" else set())
+        stray = [sym_show(q) for q in tb0.quant if q not in expected_q] + [sym_show(b) for b in tb0.bools if b != b_mono] + [sym_show(v) for v in tb0.vars if v != v_lp]
+        if None in (q_li, q_ci) or form is None or stray:
+            ctx.bad("C05-d", "%s#table" % fkey(f), "UNRECOGNISED-FORM: can_purge_logs inputs %s %s %s (unexpected: %s)" % ([sym_show(q) for q in tb0.quant], [sym_show(b) for b in tb0.bools], [sym_show(v) for v in tb0.vars], stray), "%s:%s" % (f.file, f.line))
             continue
-        run_table(ctx, "C05-d", "%s#table" % fkey(f), paths, lambda p, w: w.truth(p.ret), lambda w: w.int(q_li) < w.int(q_ci) and w.b[b_mono], "%s:%s" % (f.file, f.line),
-                  extra_exprs=[p.ret for p in paths if p.ret[0] != "const"], what="purge allowed iff last_included.index < commit_index and the monotonic check")
-        # the monotonic closure: |lid| lid.index < last_included.index
-        cl = b_mono[1][2][1]
-        cb = F.bodies.get(cl[1]) if cl[0] == "closure" else None
-        if cb is None:
-            ctx.bad("C05-d", "%s#monotonic-closure" % fkey(f), "monotonic check is not a closure", "%s:%s" % (f.file, f.line))
+        if form == "closure":
+            run_table(ctx, "C05-d", "%s#table" % fkey(f), paths, lambda p, w: w.truth(p.ret), lambda w: w.int(q_li) < w.int(q_ci) and w.b[b_mono], "%s:%s" % (f.file, f.line),
+                      extra_exprs=[p.ret for p in paths if p.ret[0] != "const"], what="purge allowed iff last_included.index < commit_index and the monotonic check")
+            # the monotonic closure: |lid| lid.index < last_included.index
+            cl = b_mono[1][2][1]
+            cb = F.bodies.get(cl[1]) if cl[0] == "closure" else None
+            if cb is None:
+                ctx.bad("C05-d", "%s#monotonic-closure" % fkey(f), "monotonic check is not a closure", "%s:%s" % (f.file, f.line))
+            else:
+                cp = table_of(ctx, "C05-d", cb, "monotonic closure")
+                if cp:
+                    rets = [p.ret for p in cp]
+                    caps = [v for (_n, v) in cl[2]]
+                    cap_ok = len(caps) == 1 and (fld(last_inc, "index")(caps[0]) or last_inc(caps[0]))
+                    rhs_ok = len(cp) == 1 and rets[0][0] == "bin" and (rets[0][3][0] == "upvar" or (fld(lambda e: e[0] == "upvar", "index")(rets[0][3])))
+                    ok = cap_ok and rhs_ok and rets[0][1] == "Lt" and fld(par(2), "index")(rets[0][2])
+                    ctx.check("C05-d", "%s#monotonic-closure" % fkey(f), ok, "previous_purge.index < last_included.index",
+                              "monotonic closure is not `previous.index < last_included.index`: %s" % [sym_show(r) for r in rets], "%s:%s" % (cb.file, cb.line))
         else:
-            cp = table_of(ctx, "C05-d", cb, "monotonic closure")
-            if cp:
-                rets = [p.ret for p in cp]
-                caps = [v for (_n, v) in cl[2]]
-                cap_ok = len(caps) == 1 and (fld(last_inc, "index")(caps[0]) or last_inc(caps[0]))
-                rhs_ok = len(cp) == 1 and rets[0][0] == "bin" and (rets[0][3][0] == "upvar" or (fld(lambda e: e[0] == "upvar", "index")(rets[0][3])))
-                ok = cap_ok and rhs_ok and rets[0][1] == "Lt" and fld(par(2), "index")(rets[0][2])
-                ctx.check("C05-d", "%s#monotonic-closure" % fkey(f), ok, "previous_purge.index < last_included.index",
-                          "monotonic closure is not `previous.index < last_included.index`: %s" % [sym_show(r) for r in rets], "%s:%s" % (cb.file, cb.line))
+            run_table(ctx, "C05-d", "%s#table" % fkey(f), paths, lambda p, w: w.truth(p.ret),
+                      lambda w: w.int(q_li) < w.int(q_ci) and (w.v[v_lp] == "None" or w.int(q_lp) < w.int(q_li)), "%s:%s" % (f.file, f.line),
+                      extra_exprs=[p.ret for p in paths if p.ret[0] != "const"], what="purge allowed iff last_included.index < commit_index and (no previous purge or previous.index < last_included.index)")
+            ctx.ok("C05-d", "%s#monotonic-closure" % fkey(f), "monotonic check is written inline and is part of the table")
     ctx.floor("C05-d", n_tab, 3, "can_purge_logs decision tables")
 
     # execute_purge / purge_logs_up_to call sites
